@@ -212,3 +212,67 @@ def wind_build(c, dtype='f'):
         v = f.createVariable(k, dtype, ('TSTEP', 'LAY', 'ROW', 'COL'))
         v[:] = bits[:, :, vi]
     return f
+
+
+# ---- lateral boundary ---------------------------------------------------------------------------------------
+
+def gen_bnd(rng):
+    u = camx.gen_uamiv(rng)
+    u['name'] = 'BOUNDARY'
+    u['nx'], u['ny'] = max(u['nx'], 3), max(u['ny'], 3)       # the edge definitions need interior cells
+    nt, nspec, nz = len(u['tflag']), len(u['species']), u['nz']
+    u['bdata'] = [[[[camx.rand_f32_bits(rng) for _ in range((u['ny'] if e < 2 else u['nx']) * nz)] for e in range(4)]
+                   for _ in range(nspec)] for _ in range(nt)]
+    del u['data']
+    return u
+
+
+def _chars(s, n):
+    return b''.join(ch.encode() + b'   ' for ch in s.ljust(n))
+
+
+def bnd_records(c):
+    """records (payload bytes) of a boundary file written from the format description"""
+    yy = lambda d: d % 100000
+    nspec = len(c['species'])
+    b0, e1 = c['tflag'][0], c['etflag'][-1]
+    recs = [_chars(c['name'], 10) + _chars(c['note'], 60) + struct.pack('>iiifif', c['itzon'], nspec, yy(b0[0]), b0[1] // 10000,
+                                                                       yy(e1[0]), e1[1] // 10000),
+            struct.pack('>15I', *camx.grid_words(c)), struct.pack('>4i', 1, 1, c['nx'], c['ny']),
+            b''.join(_chars(s, 10) for s in c['species'])]
+    for ei, nb, icell in ((1, c['ny'], 2), (2, c['ny'], c['nx'] - 1), (3, c['nx'], 2), (4, c['nx'], c['ny'] - 1)):
+        recs.append(struct.pack('>%di' % (3 + 4 * nb), *([1, ei, nb, 0, 0, 0, 0] + [icell, 0, 0, 0] * (nb - 2) + [0, 0, 0, 0])))
+    for t in range(len(c['tflag'])):
+        b, e = c['tflag'][t], c['etflag'][t]
+        recs.append(struct.pack('>ifif', yy(b[0]), b[1] // 10000, yy(e[0]), e[1] // 10000))
+        for si, s in enumerate(c['species']):
+            for ei in range(4):
+                d = c['bdata'][t][si][ei]
+                recs.append(struct.pack('>i', 1) + _chars(s, 10) + struct.pack('>i', ei + 1) + struct.pack('>%dI' % len(d), *d))
+    return recs
+
+
+def bnd_encode(c):
+    return b''.join(struct.pack('>i', len(r)) + r + struct.pack('>i', len(r)) for r in bnd_records(c))
+
+
+def bnd_line(c):
+    recs = [r.hex() for r in bnd_records(c)]
+    nspec = len(c['species'])
+    per = 1 + 4 * nspec
+    steps = '|'.join('%s:%s' % (recs[8 + t * per], ','.join(recs[9 + t * per:8 + (t + 1) * per])) for t in range(len(c['tflag'])))
+    return 'bin bnd-enc headers=%s defs=%s steps=%s' % (','.join(recs[:4]), ','.join(recs[4:8]), steps)
+
+
+def bnd_view(f, c):
+    out = dict(nt=len(f.dimensions['TSTEP']), nz=len(f.dimensions['LAY']), ny=len(f.dimensions['ROW']), nx=len(f.dimensions['COL']),
+               vars={})
+    for s in c['species']:
+        for e in ('WEST', 'EAST', 'SOUTH', 'NORTH'):
+            k = '%s_%s' % (e, s)
+            arr = np.ascontiguousarray(np.asarray(f.variables[k][:]).astype('>f4')).view('>u4')
+            out['vars'][k] = arr.reshape(out['nt'], -1).tolist()
+            out.setdefault('shapes', {})[k] = list(np.shape(f.variables[k]))
+    out['tflag'] = [[int(a), int(b)] for a, b in np.asarray(f.variables['TFLAG'][:, 0, :])]
+    out['etflag'] = [[int(a), int(b)] for a, b in np.asarray(f.variables['ETFLAG'][:, 0, :])]
+    return out
